@@ -181,7 +181,7 @@ def splits(macros):
 def gamma13(tier, seed):
     rnd = random.Random(seed + 13)
     pairs = []
-    per_base = 8 if tier == "quick" else 40
+    per_base = 8 if tier == "quick" else 100
     for bname, base in BASES:
         cands = factorings(base, rnd, per_base) + two_macro_variants(base, rnd)
         for n, (kind, macros, pat) in enumerate(cands):
